@@ -1668,6 +1668,20 @@ class Exec:  # an execution path
 
         var_set = self.path.get_var_set(self.balance)
 
+        # block fields may hold symbolic values set by cheatcodes; they are part of the state id
+        block = self.block
+        for _field in (
+            block.basefee,
+            block.chainid,
+            block.coinbase,
+            block.difficulty,
+            block.gaslimit,
+            block.number,
+        ):
+            var_set = itertools.chain(
+                var_set, self.path.get_var_set(BV(_field).as_z3())
+            )
+
         # the keys of self.code are constant
         for _contract in self.code.values():
             _code = _contract._code
